@@ -51,7 +51,17 @@ def sec_seeds():
         out.append(f"| {name} | {meta['property']} | {needs} | {m.get('result', 'pending')} | {m.get('by', '')} |")
     return "\n".join(out)
 
-gen = {'checks': sec_checks, 'findings': sec_findings, 'seeds': sec_seeds}
+def sec_growth():
+    g = reg.get('growth', {})
+    if not g:
+        return "*(growth modules under construction)*"
+    out = []
+    for gid in sorted(g):
+        out.append(f"**{gid} — {g[gid]['title']}**  {g[gid]['text']}")
+        out.append("")
+    return "\n".join(out)
+
+gen = {'checks': sec_checks, 'findings': sec_findings, 'seeds': sec_seeds, 'growth': sec_growth}
 s = open(f'{R}/DESIGN.md').read()
 for name, fn in gen.items():
     pat = re.compile(rf'(<!-- AUTO:{name} -->\n).*?(<!-- /AUTO:{name} -->)', re.S)
